@@ -257,13 +257,33 @@ class FileResponseMixin:
         )
 
 
+# The only line breaks of the event stream format are CRLF, CR and LF.
+SSE_LINE_BREAK = re.compile(r"\r\n|\r|\n")
+
+
+def split_sse_lines(text: str) -> List[str]:
+    """
+    Split the data of a server-sent event into lines at CRLF, CR and LF only.
+
+    Like `str.splitlines`, a trailing line break does not open a new line, but
+    unlike it, other characters (VT, FF, FS, GS, RS, NEL, U+2028, U+2029) are
+    ordinary text: an event stream parser does not treat them as line breaks.
+    """
+    lines = SSE_LINE_BREAK.split(text)
+    if lines[-1] == "":
+        lines.pop()
+    return lines
+
+
 def build_bytes_from_sse(event: ServerSentEvent, charset: str) -> bytes:
     """
     helper function for SendEventResponse
     """
     data: Iterable[bytes]
     if "data" in event:
-        data = (f"data: {_}".encode(charset) for _ in event.pop("data").splitlines())
+        data = (
+            f"data: {_}".encode(charset) for _ in split_sse_lines(event.pop("data"))
+        )
     else:
         data = ()
     return b"\n".join(
